@@ -246,6 +246,16 @@ def pgpy_side(ctx, blobs, combos):
             e = indep_event(blobs, sig, subj, env, pubcache, '%s %s %s' % (alg, kind, '+'.join(sorted(opts)) or '-'))
             e['alg'], e['kind'], e['opts'] = alg, kind, sorted(opts)
             ev.append(e)
+            if len(opts) <= 1 and subj[0] not in ('inline', 'text'):
+                # the same signature as a COPY of the object (what key.pubkey hands out for everything attached to a key): every field of the
+                # packet - the left 16 bits of the hash included - is what was made
+                import copy as _copy
+                try:
+                    e2 = indep_event(blobs, _copy.copy(sig), subj, env, pubcache, '%s %s %s (copy of the signature object)' % (alg, kind, '+'.join(sorted(opts)) or '-'))
+                    e2['alg'], e2['kind'], e2['opts'] = alg, kind, sorted(opts) + ['copied']
+                    ev.append(e2)
+                except Exception as ex:
+                    ctx.note('copy of a signature: %s' % repr(ex)[:80])
         # certifications over identities of every packet-length class (self and third party), incl. the stored self-signatures
         for ui, u in enumerate(env.k.userids):
             try:
